@@ -1,14 +1,18 @@
 #!/bin/sh
-# usage: tools/reseed_all.sh : apply every saved seeded defect to /repo in turn, run the quick check of its property, revert.
-# Writes out/reseed.log: one line per seed "<id> <check> rc=<rc> violations=<n>"
+# usage: tools/reseed_all.sh : apply every saved seeded defect in turn to a scratch worktree of /repo's HEAD (never to /repo
+# itself), run the quick check of its property against that worktree (VERIF_REPO), revert.  Writes tools/reseed_last.log.
+W=/tmp/wt_reseed
 cd /verif
+git -C /repo worktree remove --force $W 2>/dev/null
+git -C /repo worktree add --detach -q $W HEAD || exit 2
 : > out/reseed.log
 for d in seeded/*/; do
   id=$(basename $d)
   prop=$(python3 -c "import json; print(json.load(open('$d/meta.json'))['property'])")
-  (cd /repo && git apply /verif/$d/patch.diff) || { echo "$id $prop PATCH-DOES-NOT-APPLY" >> out/reseed.log; continue; }
-  ./check $prop > out/reseed_run.log 2>&1; rc=$?
+  (cd $W && git apply /verif/$d/patch.diff) || { echo "$id $prop PATCH-DOES-NOT-APPLY" >> out/reseed.log; continue; }
+  mkdir -p out/reseed_evidence; VERIF_REPO=$W VERIF_EVIDENCE_DIR=/verif/out/reseed_evidence ./check $prop > out/reseed_run.log 2>&1; rc=$?
   echo "$id $prop rc=$rc violations=$(grep -c '^VIOLATION' out/reseed_run.log) $(grep '^VIOLATION' -A1 out/reseed_run.log | grep clause= | sed 's/^ *//' | cut -c1-70 | sort | uniq -c | sort -rn | head -1)" >> out/reseed.log
-  git -C /repo checkout -- .
+  git -C $W checkout -q -- . ; git -C $W clean -fdq
 done
-git -C /repo status --short | grep -v resulttable
+git -C /repo worktree remove --force $W
+cp out/reseed.log tools/reseed_last.log
